@@ -210,6 +210,26 @@ def run_contract(case, res):
                               'hot-spot temperature below nominal with all '
                               'subfactors >= 1', dict(key, n_in=a, n_out=o),
                               {'min_margin': float(np.min(T - nominal))})
+        # the caller's arrays are inputs, not scratch space: a series of
+        # calls with the same table (sigma sweep) must see the same table
+        dT_s = dT.copy()
+        h_s = {k: v.copy() for k, v in hcf.items()}
+        seq = []
+        for (a, o) in ((3, 2), (3, 0), (1, 4), (3, 2)):
+            seq.append(np.array(hs.calculate_temps(
+                T_in, dT_s, h_s, IN_sigma=a, OUT_sigma=o), dtype=float))
+            same = np.array_equal(dT_s, dT) and all(
+                np.array_equal(h_s[k], hcf[k]) for k in hcf)
+            res.check('A8_arguments_unchanged', same,
+                      'calculate_temps changed the rise or subfactor arrays '
+                      'it was given', dict(key, n_in=a, n_out=o))
+        res.check('A8_repeated_call_same_result',
+                  np.array_equal(seq[0], seq[-1]) and
+                  np.array_equal(seq[0], R[(3, 2)]) and
+                  np.array_equal(seq[2], R[(1, 4)]),
+                  'a call repeated with the same table after other calls '
+                  'gives another result', key,
+                  {'first': seq[0][0].tolist(), 'again': seq[-1][0].tolist()})
         ustat = np.array([e[2] for e in exp])       # statistical part (in=out)
         # unity table: nominal, at every sigma level
         ones = {'direct': np.ones((n_asm, max(nd, 1), m)),
